@@ -85,7 +85,11 @@ func genMethod(r R) string {
 // U+017F LONG S -> S, U+0130 -> i + combining dot): they are not tokens and must be rejected as invalid.
 var (
 	hdrNamesUnicodeFold = []string{"X-Api-\u212Aey", "x-\u017Fecret", "\u017Fec-foo", "Coo\u212Aie", "x-\u0130d", "X-\u212A", "content-type\u212A"}
-	methodsUnicodeFold  = []string{"TRAC\u212A", "put\u017F", "\u212AILL", "PATC\u0127"}
+	// a wildcard over a public suffix listed AFTER a wildcard over its (non-public) parent, and the other way round
+	originsPSLNested = [][]string{{"https://*.amazonaws.com", "https://*.s3.amazonaws.com"}, {"https://*.kobe.jp", "https://*.foo.kobe.jp"},
+		{"https://*.fastly.net.:*", "https://*.global.ssl.fastly.net.:8443"}, {"https://*.s3.amazonaws.com", "https://*.amazonaws.com"},
+		{"https://example.com", "https://*.amazonaws.com:*", "https://*.s3.amazonaws.com:8443"}}
+	methodsUnicodeFold  = []string{"po\u017Ft", "PO\u017FT", "ge\u0165", "dele\u0167e", "TRAC\u212A", "put\u017F", "\u212AILL", "PATC\u0127"}
 )
 
 // ---------- hosts ----------
